@@ -21,6 +21,7 @@ import (
 	"path/filepath"
 	"strings"
 	"sync"
+	"time"
 
 	"github.com/blinklabs-io/gouroboros/ledger"
 	"github.com/blinklabs-io/gouroboros/ledger/byron"
@@ -105,7 +106,7 @@ func c34Find(name string) *c34Fixture {
 }
 
 func init() {
-	register(&Prop{ID: "C34", Gen: genC34, Run: runC34})
+	register(&Prop{ID: "C34", Gen: genC34, Run: runC34, Timeout: 3 * time.Minute})
 }
 
 // ---------------------------------------------------------------- Run
